@@ -34,7 +34,8 @@ def body_case(draw):
         st.text('-b', min_size=1, max_size=6),
         st.text(BCHARS, min_size=20, max_size=70)))
     tok = ('\r\n--' + boundary).encode()
-    prefixes = [tok[:i] for i in range(1, len(tok))] + [tok[:-1] + b'_', b'--' + boundary.encode(), boundary.encode()]
+    prefixes = ([tok[:i] for i in range(1, len(tok))] + [tok[:-1] + b'_', b'--' + boundary.encode(), boundary.encode()]
+                + [tok[i:] for i in range(1, len(tok))][:12])          # ... and suffixes: what a parser still expects after a cut inside a delimiter
     piece = st.one_of(st.sampled_from([b'\r', b'\n', b'-', b'\r\n', b'--', b'\r\n\r\n', b'\n\r\n', b'\r\r\n', b'\r\n-', b'\r\n--']),
                       st.sampled_from(prefixes), st.binary(min_size=1, max_size=3),
                       st.sampled_from([bytes([c]) for c in boundary.encode()]))
